@@ -199,7 +199,7 @@ def _tokval(tok):
 
 def parse_cfg(case):
     """cfg <src> <root> <slow> <nm> {id class iv sv th}* <now0> <ng> {g le}* <nev> events
-    events: k <now> | t <now> | e | x | r <now> <n> {g draw}* | rs <now> <c|g> <n> {g draw}* | ue <now>"""
+    events: k <now> | t <now> | e | x | r <now> <n> {g draw}* | rs <now> <c|g> <n> {g draw}* | ue <now> | a <mode>"""
     f = case.split()
     assert f[0] == "cfg"
     c = {"src": f[1], "root": f[2], "slow": f[3] == "1", "mods": [], "groups": [], "events": []}
@@ -224,6 +224,8 @@ def parse_cfg(case):
             c["events"].append(("rs", int(f[i + 1]), f[i + 2], lst)); i += 4 + 2 * n
         elif k in ("e", "x"):
             c["events"].append((k,)); i += 1
+        elif k == "a":
+            c["events"].append(("a", f[i + 1])); i += 2
         elif k == "r":
             n = int(f[i + 2])
             lst = [(f[i + 3 + 2 * j], int(f[i + 4 + 2 * j])) for j in range(n)]
@@ -254,6 +256,8 @@ def cfg_line(src, root, slow, mods, now0, groups, events):
             toks += [e[0], str(e[1])]
         elif e[0] == "rs":
             toks += ["rs", str(e[1]), e[2], str(len(e[3]))] + ["%s %d" % (g, d) for g, d in e[3]]
+        elif e[0] == "a":
+            toks += ["a", e[1]]
         elif e[0] == "r":
             toks += ["r", str(e[1]), str(len(e[2]))] + ["%s %d" % (g, d) for g, d in e[2]]
         else:
@@ -598,4 +602,108 @@ FIXED_ISO = [
     cfg_line("toml", "/burrow", False, [_m(1, "null", 5, None, None)], T0, [(1, T0 - 6 * NS), (2, T0 - 6 * NS), (3, T0 - 6 * NS)],
              [("k", T0), ("t", T0 + 5 * NS + 1), ("rs", T0 + 5 * NS + 1, "g", [(1, 4999), (2, 4999), (3, 4999)]),
               ("t", T0 + 10 * NS + 2), ("r", T0 + 10 * NS + 2, [(1, 4999), (2, 4999), (3, 4999)]), ("t", T0 + 10 * NS + 2 + 2 * MS)]),
+]
+
+
+# ---- round 3: evaluator replies through the real response path; re-locks inside the interval ------------------------
+
+def _null_mods(rng):
+    """1-3 null modules (a reply ends in module.Notify: no http / email module may be configured), shortest interval
+    in 1 .. 3600."""
+    nm = rng.randrange(1, 4)
+    ids = rng.sample(range(1, 10), nm)
+    base = rng.choice([1, 2, 5, 30, 60, 61, 300, 3600])
+    mods = []
+    for k in range(nm):
+        iv = rng.choice([None, base, base + 1, base + 7, 2 * base])
+        sv = rng.choice([None, 0, 1, 5, base, 10 * base])
+        th = rng.choice([None, 1, 2, 3])
+        mods.append({"id": ids[k], "class": "null", "iv": iv, "sv": sv, "th": th,
+                     "toks": ["-" if v is None else str(v) for v in (iv, sv, th)]})
+    return mods, shortest_configured(mods)
+
+
+ANSWERS_BAD = ["warn", "err", "err", "stop", "stall", "rewind"]
+
+
+def gen_cfg_replies(rng, idx):
+    """The evaluator answers every request through the real reply path while the ticks go on: an incident opens (a bad
+    status), stays open, closes (OK) -- then ticks 1 ms and 2 ms later, at interval - 1 ns and interval + 1 ns after the
+    last evaluation; NOTFOUND and nil replies; optionally an expiry / re-lock in between."""
+    mods, mi = _null_mods(rng)
+    src = rng.choice(["set", "toml"])
+    now = T0 + rng.randrange(0, 10**6) * MS
+    ids = sorted(rng.sample(range(1, 10), rng.randrange(1, 4)))
+    groups = [(g, now - mi * NS - 1 - rng.choice([0, 1, NS])) for g in ids]
+    tags = set(["replies"] + cfg_tags(mods))
+    now0 = now
+    evs = [("a", rng.choice(ANSWERS_BAD)), ("k", now)]          # evaluated at now, incident opens
+    last = now
+    for _ in range(rng.randrange(1, 4)):
+        r = rng.random()
+        if r < 0.3:
+            evs.append(("a", rng.choice(ANSWERS_BAD + ["nf", "nil", "none"]))); tags.add("replies:still-open")
+        elif r < 0.45:
+            evs.append(("x",)); evs.append(("k", last + rng.choice([MS, mi * NS // 2]))); tags.add("replies:relock")
+        last += mi * NS + rng.choice([1, 2, MS])
+        evs.append(("t", last))
+    evs.append(("a", "ok"))
+    last += mi * NS + 1
+    evs.append(("t", last))                                     # evaluated, reply OK: the incident closes
+    tags.add("replies:incident-closes")
+    evs.append(("t", last + MS))
+    evs.append(("t", last + 2 * MS))
+    if rng.random() < 0.4:
+        evs.append(("x",)); evs.append(("k", last + 3 * MS)); tags.add("replies:relock")
+    evs.append(("t", last + mi * NS - 1))
+    evs.append(("t", last + mi * NS))
+    last += mi * NS + 1
+    evs.append(("t", last))                                     # evaluated again, reply OK with no incident open
+    evs.append(("t", last + MS))
+    if rng.random() < 0.5:
+        evs.append(("a", rng.choice(ANSWERS_BAD)))
+        last += mi * NS + 1
+        evs.append(("t", last))
+        evs.append(("t", last + MS))
+    return cfg_line(src, "/burrow", rng.random() < 0.2, mods, now0, groups, evs), sorted(tags)
+
+
+def gen_cfg_relock(rng, idx):
+    """Groups evaluated just before the expiry; expiry, release and re-acquisition complete well inside the shortest
+    interval (1 ms .. interval / 2 after the last evaluation); then ticks 1 ms later, at interval - 1 ns and
+    interval + 1 ns after the last evaluation.  One to three such cycles."""
+    mods, mi = _null_mods(rng) if rng.random() < 0.5 else _iso_mods(rng, True)
+    src = rng.choice(["set", "toml"])
+    now = T0 + rng.randrange(0, 10**6) * MS
+    ids = sorted(rng.sample(range(1, 10), rng.randrange(1, 4)))
+    groups = [(g, now - mi * NS - 1 - rng.choice([0, 1, NS])) for g in ids]
+    tags = set(["relock-inside-interval"] + cfg_tags(mods))
+    evs = [("k", now)]
+    last = now
+    for cyc in range(rng.randrange(1, 4)):
+        if rng.random() < 0.7:
+            last += mi * NS + 1
+            evs.append(("t", last))                             # evaluated just before the expiry
+        evs.append(("x",))
+        if rng.random() < 0.3:
+            evs.append(("e",)); tags.add("lockerr")
+        t = last + rng.choice([MS, 2 * MS, mi * NS // 2])
+        evs.append(("k", t))                                    # re-lock well inside the interval: nothing is due
+        evs.append(("t", t + MS))
+        evs.append(("t", last + mi * NS - 1))
+        evs.append(("t", last + mi * NS))
+        last += mi * NS + 1
+        evs.append(("t", last))                                 # due again
+    return cfg_line(src, "/burrow", False, mods, now, groups, evs), sorted(tags)
+
+
+FIXED_R3 = [
+    # interval 30: incident opens at T, closes at T+30s+1ns (reply OK); 1 ms, 2 ms, 30 s - 1 ns later nothing; then again
+    cfg_line("set", "/burrow", False, [_m(1, "null", 30, None, 1)], T0, [(1, T0 - 31 * NS)],
+             [("a", "err"), ("k", T0), ("a", "ok"), ("t", T0 + 30 * NS + 1), ("t", T0 + 30 * NS + 1 + MS), ("t", T0 + 30 * NS + 1 + 2 * MS),
+              ("t", T0 + 60 * NS), ("t", T0 + 60 * NS + 2)]),
+    # interval 30: evaluated at T and T+30s+1ns, expiry, re-lock 2 ms later, ticks inside the interval, then due
+    cfg_line("toml", "/burrow", False, [_m(1, "null", 30, 5, None), _m(2, "null", 60, 1, None)], T0, [(1, T0 - 31 * NS), (4, T0 - 31 * NS)],
+             [("k", T0), ("t", T0 + 30 * NS + 1), ("x",), ("k", T0 + 30 * NS + 1 + 2 * MS), ("t", T0 + 30 * NS + 1 + 3 * MS),
+              ("t", T0 + 60 * NS), ("t", T0 + 60 * NS + 2)]),
 ]
